@@ -19,7 +19,15 @@
 (*                 via : "direct" | "func" | "exec" | "evalexec" | "eval" | "compiled" |      *)
 (*                       "funcexec" (exec called inside a function body),                     *)
 (*                 ns  : [g, l] the namespace arguments of the eval/exec call (NsForms below),*)
-(*                 ctx : "file" | "app", allow_all : BOOLEAN ]                                *)
+(*                 ctx : "file" | "app", allow_all : BOOLEAN,                                 *)
+(*                 level : 0 = absolute | n > 0 = the number of leading dots of a relative      *)
+(*                         from-import (`from .m import b`: form "from"; `from . import m [as x], n`:*)
+(*                         form "frompkg", one clause per module named, name = "-"),           *)
+(*                 pkg : the package the executing code belongs to, as the parts of its        *)
+(*                       context name (<<"apps","app1">>, <<"modules","pk","deep">>; <<>> = a   *)
+(*                       script file that belongs to no package) ]                             *)
+(* E.pys entries also carry pub / star (the public names of that file, the names its star       *)
+(* import binds): for a relative clause the truth about the member comes from there.            *)
 (* Outcome = [exc : "ok" | exception class, bound : set of names bound by the statement].     *)
 (* flags = named deviations of the code ({} = the property statement).                        *)
 EXTENDS Naturals, Sequences, FiniteSets
@@ -37,9 +45,32 @@ AppFromOutside(c, ctx, E) == ctx # "app" /\ \E p \in E.pys : p.name = c.mod /\ p
 \* THE RULE
 Allowed(c, ctx, allowAll, E) == allowAll \/ c.mod \in E.allow \/ IsPyscriptModule(c, ctx, E)
 
+\* ---------------------------------------------------------------------------------------------
+\* relative imports (level > 0).  The module a clause names is <package of the code, level - 1 parts dropped>.mod;
+\* it is a pyscript module exactly when a file of that context name exists.  No absolute module is ever meant by a
+\* relative clause: neither the allow-list nor allow_all_imports ("everything installed imports") speaks about it.
+RECURSIVE JoinDots(_)
+JoinDots(s) == IF Len(s) = 0 THEN "" ELSE IF Len(s) = 1 THEN s[1] ELSE s[1] \o "." \o JoinDots(Tail(s))
+IsRel(cs) == cs.level > 0
+\* code outside any package / more dots than the package is deep (pkg[1] is the folder: modules | apps)
+NoParent(cs) == Len(cs.pkg) = 0
+AboveParent(cs) == Len(cs.pkg) < cs.level + 1
+RelBase(cs) == IF NoParent(cs) \/ AboveParent(cs) THEN <<>> ELSE SubSeq(cs.pkg, 1, Len(cs.pkg) + 1 - cs.level)
+RelTarget(cs, c) == JoinDots(RelBase(cs)) \o "." \o c.mod
+RelPys(cs, c, E) == IF NoParent(cs) \/ AboveParent(cs) THEN {} ELSE { p \in E.pys : p.ctxname = RelTarget(cs, c) }
+\* absolute names: app packages resolve from code below apps/ only
+AbsScope(cs) == IF Len(cs.pkg) > 0 /\ cs.pkg[1] = "apps" THEN "app" ELSE "file"
+\* what is known about clause k's module: for a member named relatively, the scenario's file; else what CPython says
+TruthOf(cs, k, E) ==
+  LET c == cs.clauses[k]  P == IF IsRel(cs) THEN RelPys(cs, c, E) ELSE {}
+  IN IF P # {} THEN LET p == CHOOSE p \in P : TRUE
+                    IN [imp |-> "ok", has |-> c.name \in ToSet(p.pub), star |-> p.star, pub |-> p.pub]
+     ELSE cs.truth[k]
+
 \* alternative sets of names one clause binds when it succeeds
 NamesOf(form, c, t, flags) ==
-  IF form = "import"
+  IF form = "frompkg" THEN {{IF c.as # "-" THEN c.as ELSE c.mod}}
+  ELSE IF form = "import"
   THEN IF c.as # "-" THEN {{c.as}}
        ELSE IF Len(c.parts) = 1 THEN {{c.mod}}
        ELSE {{c.mod}, {c.parts[1]}}     \* `import a.b`: the dotted name (pyscript's name scheme) or the top package (CPython)
@@ -54,15 +85,23 @@ Run(cs, E, k, bound, flags) ==
   IF k > Len(cs.clauses) THEN {Out("ok", bound)}
   ELSE
     LET c == cs.clauses[k]
-        t == cs.truth[k]
+        t == TruthOf(cs, k, E)
         Bind == UNION { Run(cs, E, k + 1, bound \cup ns, flags) : ns \in NamesOf(cs.form, c, t, flags) }
         Missing == cs.form = "from" /\ c.name # "*" /\ ~t.has
         Succeed == IF t.imp # "ok" THEN {Out(t.imp, bound)}
                    ELSE IF Missing THEN {Out(IF "from-missing-attributeerror" \in flags THEN "AttributeError" ELSE "ImportError", bound)}
                    ELSE Bind
+        \* the deviation "relative-falls-back-absolute": a relative from-import of a non-member is treated as the
+        \* absolute from-import of the same name, straight through the allow-list (no pyscript module looked up)
+        FallsBack == "relative-falls-back-absolute" \in flags /\ cs.form = "from" /\ (cs.allow_all \/ c.mod \in E.allow)
     IN IF cs.form = "from" /\ IsStub(c)
          THEN IF "stubs-as-refused" \in flags /\ \E j \in 1..Len(cs.clauses) : cs.clauses[j].as # "-"
               THEN {Out(Refusal, {})} ELSE {Out("ok", {})}              \* from-imports below stubs are no-ops
+       ELSE IF IsRel(cs)
+         THEN IF NoParent(cs) \/ AboveParent(cs) THEN {Out("ImportError", bound), Out(Refusal, bound)}   \* Python: ImportError
+              ELSE IF RelPys(cs, c, E) # {} THEN Succeed
+              ELSE IF FallsBack THEN Succeed
+              ELSE {Out(Refusal, bound)}                 \* not a member of the package: refused, whatever the configuration
        ELSE IF IsPyscriptModule(c, cs.ctx, E) THEN Succeed
        ELSE IF AppFromOutside(c, cs.ctx, E) THEN {Out(Refusal, bound)} \cup Succeed
        ELSE IF ~Allowed(c, cs.ctx, cs.allow_all, E) THEN {Out(Refusal, bound)}      \* refused: nothing more is bound
@@ -122,7 +161,13 @@ Outcomes(cs, E, flags) ==
   IN IF DefaultLocalsOpen(cs.via, cs.ns) THEN X \cup { Out(x.exc, {}) : x \in X } ELSE X
 
 \* identity class of the object a clause binds under a name
-ClassOf(cs, E, c) ==
+ClassOf(cs, E, c, flags) ==
+  IF IsRel(cs) THEN
+    LET R == RelPys(cs, c, E)
+        owner == IF R # {} THEN "pysmod:" \o (CHOOSE p \in R : TRUE).ctxname
+                 ELSE IF "relative-falls-back-absolute" \in flags THEN "module:" \o c.mod ELSE "nothing"
+    IN IF cs.form = "frompkg" THEN owner ELSE "attr:" \o owner
+  ELSE
   LET P == PysOf(c, cs.ctx, E) \cup (IF AppFromOutside(c, cs.ctx, E) THEN { p \in E.pys : p.name = c.mod } ELSE {})
       owner == IF P # {} /\ ~(cs.via = "compiled") THEN "pysmod:" \o (CHOOSE p \in P : TRUE).ctxname ELSE "module:" \o c.mod
   IN IF cs.form = "import" THEN owner ELSE "attr:" \o owner
